@@ -58,10 +58,34 @@ def world(decisions, module):
     return run
 
 
-def observe(module, fn, p, decisions):
+def observe(module, fn, p, decisions, recorder=None):
     run = world(decisions, module)
+    if recorder is not None:
+        recorder.run = run
     out = mp.outcome(fn, mp.main_args(p))
     return dict(log=run.log, out=out, used=run.di)
+
+
+def embeds(expected, observed):
+    """expected (list of [op, loglen]) is a subsequence of observed."""
+    i = 0
+    for e in observed:
+        if i < len(expected) and list(e) == list(expected[i]):
+            i += 1
+    return i == len(expected)
+
+
+def code_of(conv):
+    import inspect
+    out = {}
+    for name, g in conv.items():
+        if g is None:
+            continue
+        try:
+            out[name] = inspect.getsource(inspect.unwrap(g) if hasattr(g, '__wrapped__') and False else g)
+        except Exception as e:
+            out[name] = None
+    return out
 
 
 def agree(rec, res):
@@ -95,6 +119,7 @@ def _replay_chunk(args):
         ag = api._TRANSPILER.get_extra_locals()['ag__']
         ops_mod.install(ag, recorder)
     opcalls = {}
+    routing = []
     import logging
     wd = os.path.join(wdroot, 'w%d' % os.getpid())
     os.makedirs(wd, exist_ok=True)
@@ -122,12 +147,13 @@ def _replay_chunk(args):
             continue
         for o in opts:
             g = conv[o['name']]
-            if g is None:
+            if g is None or o.get('norun'):
                 continue
             if recorder is not None:
                 del recorder.calls[:]
+                del recorder.events[:]
                 recorder.counts = {}
-            res = observe(m, g, p, rec['dec'])
+            res = observe(m, g, p, rec['dec'], recorder)
             n += 1
             if recorder is not None:
                 for c in recorder.calls:
@@ -141,11 +167,15 @@ def _replay_chunk(args):
                         c['opt'] = o['name']
                         opcalls[k] = c
                 res['counts'] = dict(recorder.counts)
+                if 'ulog' in rec and agree(rec, res) is None and not embeds(rec['ulog'], recorder.events):
+                    routing.append(dict(pid=pid, dec=rec['dec'], opt=o['name'], expected=rec['ulog'],
+                                        observed=[list(e) for e in recorder.events]))
             why = agree(rec, res)
             if why:
                 out.append(dict(pid=pid, dec=rec['dec'], opt=o['name'], why=why, expected=mp.spec_outcome(rec),
                                 observed=res['out'], exp_log=rec['log'], obs_log=res['log'], bad=rec.get('bad', '')))
-    return dict(div=out, n=n, conv_errors=conv_errors, opcalls=list(opcalls.values()))
+    return dict(div=out, n=n, conv_errors=conv_errors, opcalls=list(opcalls.values()), routing=routing,
+                codes={pid: code_of(conv) for pid, (m, conv) in cache.items()} if any(o.get('code') for o in opts) else {})
 
 
 def replay_all(progs, recs, opts, procs=14, chunk=1500, name='replay'):
@@ -168,4 +198,8 @@ def replay_all(progs, recs, opts, procs=14, chunk=1500, name='replay'):
         for e in r['conv_errors']:
             errs[(e['pid'], e['opt'])] = e
     replay_all.opcalls = [c for r in results for c in r.get('opcalls', [])]
+    replay_all.routing = [c for r in results for c in r.get('routing', [])]
+    replay_all.codes = {}
+    for r in results:
+        replay_all.codes.update(r.get('codes', {}))
     return div, n, list(errs.values())
